@@ -364,8 +364,16 @@ impl Cw1Scen {
             .filter_map(|r| r.ok())
             .map(|(k, v)| format!("{}:{}", k, render_allowance(&v)))
             .collect();
+        let mut pagediff: Vec<String> = vec![];
+        if let Some(d) = paging_audit("all_allowances", &|c, l| self.q_all_allowances(c, l)) {
+            pagediff.push(d);
+        }
+        if let Some(d) = paging_audit("all_permissions", &|c, l| self.q_all_permissions(c, l)) {
+            pagediff.push(d);
+        }
         format!(
-            "obs admins={} mutable={} allow={} lallow={} rallow={} perm={} lperm={}",
+            "obs pagediff={} admins={} mutable={} allow={} lallow={} rallow={} perm={} lperm={}",
+            pagediff.join(","),
             admins,
             mutable,
             allow.join(","),
@@ -478,6 +486,17 @@ impl Cw1Scen {
             12 => format!("t{}", t + 1),
             _ => format!("t{}", t + 1 + rng.below(30) * 1_000_000_000),
         }
+    }
+
+    /// An expiry for a grant to `sp`: sometimes exactly the expiry already stored for that
+    /// subkey (repeating a grant with an unchanged deadline, possibly after it was reached).
+    fn gen_exp_for(&self, rng: &mut Rng, sp: &str) -> String {
+        if rng.chance(1, 5) {
+            if let Some(a) = self.raw_allowance(&Addr::unchecked(addr_text(sp))) {
+                return render_exp(&a.expires);
+            }
+        }
+        self.gen_exp(rng)
     }
 
     fn held(&self, who: &Addr, denom: &str) -> u128 {
@@ -700,7 +719,7 @@ impl Scenario for Cw1Scen {
                 3 => U128MAX,
                 _ => 1 + rng.below(300) as u128,
             };
-            format!("exec {snd} increase_allowance spender={sp} amt={amt} denom={d} expires={}", self.gen_exp(rng))
+            format!("exec {snd} increase_allowance spender={sp} amt={amt} denom={d} expires={}", self.gen_exp_for(rng, &sp))
         } else if r < 32 {
             let snd = self.pick_sender(rng, 85, 5);
             let subs = self.subkeys_now();
@@ -710,7 +729,7 @@ impl Scenario for Cw1Scen {
                 self.raw_allowance(&spa).map(|a| a.balance.0.iter().map(|c| c.denom.clone()).collect()).unwrap_or_default();
             let d = if !held.is_empty() && rng.chance(5, 6) { rng.pick(&held).clone() } else { rng.pick(&DENOMS).to_string() };
             let amt = self.amount_near(rng, self.held(&spa, &d));
-            format!("exec {snd} decrease_allowance spender={sp} amt={amt} denom={d} expires={}", self.gen_exp(rng))
+            format!("exec {snd} decrease_allowance spender={sp} amt={amt} denom={d} expires={}", self.gen_exp_for(rng, &sp))
         } else if r < 40 {
             let snd = self.pick_sender(rng, 85, 5);
             let sp = gen_spender(rng);
